@@ -52,8 +52,9 @@ fn main() {
                 simkit::driver::selftest_determinism(&props, n)
             }
             "rewrite" => simkit::driver::selftest_rewrite(),
+            "known" => simkit::driver::selftest_known(),
             _ => {
-                eprintln!("usage: sim selftest determinism [n] [prop] | rewrite");
+                eprintln!("usage: sim selftest determinism [n] [prop] | rewrite | known");
                 2
             }
         },
